@@ -362,7 +362,7 @@ class Calls(Interp):
         self.pol = -1
         g = self.eval_clause(text, spec_env, old, env)
         tags, body = split_tag(text)
-        self.oblige(name, g, kind=kind, level=level, info={"clause": body, "tags": tags})
+        self.oblige(name, g, kind=kind, level=level, info={"clause": body, "tags": tags, "clause_text": text})
 
     def call_spec(self, name, args):
         params, body = self.reg.specs[name]
